@@ -26,6 +26,40 @@ impl Drop for Tracked {
     }
 }
 
+/// The item type a history is run with: one that logs its destruction, and a plain-data one
+/// (no drop glue: its column storage must be released all the same).
+trait Kind {
+    type T;
+    const DROPS: bool;
+    const NAME: &'static str;
+    fn mk(id: u32, log: &Log) -> Self::T;
+    fn id(t: &Self::T) -> u32;
+}
+struct Logging;
+impl Kind for Logging {
+    type T = Tracked;
+    const DROPS: bool = true;
+    const NAME: &'static str = "drop-logging item";
+    fn mk(id: u32, log: &Log) -> Tracked {
+        Tracked { id, log: log.clone() }
+    }
+    fn id(t: &Tracked) -> u32 {
+        t.id
+    }
+}
+struct Plain;
+impl Kind for Plain {
+    type T = u32;
+    const DROPS: bool = false;
+    const NAME: &'static str = "plain u32 item";
+    fn mk(id: u32, _: &Log) -> u32 {
+        id
+    }
+    fn id(t: &u32) -> u32 {
+        *t
+    }
+}
+
 #[derive(Clone, Copy, Debug, PartialEq, Eq)]
 pub enum Op {
     Push,
@@ -73,9 +107,9 @@ fn col_len(id: u32, col: usize) -> usize {
     talloc::TRACK_LO + 2 * (id as usize * 2 + col)
 }
 
-fn fill_ok(t: &Tracked, cols: &mut [Utf32String]) {
+fn fill_ok<K: Kind>(t: &K::T, cols: &mut [Utf32String]) {
     for (k, c) in cols.iter_mut().enumerate() {
-        *c = Utf32String::Unicode(vec!['x'; col_len(t.id, k)].into_boxed_slice());
+        *c = Utf32String::Unicode(vec!['x'; col_len(K::id(t), k)].into_boxed_slice());
     }
 }
 
@@ -113,6 +147,16 @@ pub struct Start {
 }
 
 fn run_history(start: &Start, ops: &[Op], acc: &mut Acc, describe: &dyn Fn() -> Value) {
+    run_history_k::<Logging>(start, ops, acc, describe);
+    let plain = || {
+        let mut d = describe();
+        d["item_type"] = json!(Plain::NAME);
+        d
+    };
+    run_history_k::<Plain>(start, ops, acc, &plain);
+}
+
+fn run_history_k<K: Kind>(start: &Start, ops: &[Op], acc: &mut Acc, describe: &dyn Fn() -> Value) {
     let log: Log = Rc::new(RefCell::new(Vec::new()));
     let mut model = Model {
         slots: Vec::new(),
@@ -120,14 +164,14 @@ fn run_history(start: &Start, ops: &[Op], acc: &mut Acc, describe: &dyn Fn() -> 
         next_id: 0,
     };
     talloc::begin();
-    let v: VerifVec<Tracked> = VerifVec::with_capacity(start.cap, start.cols);
-    let mk = |id: u32| Tracked { id, log: log.clone() };
+    let v: VerifVec<K::T> = VerifVec::with_capacity(start.cap, start.cols);
+    let mk = |id: u32| K::mk(id, &log);
     let mut fail = |acc: &mut Acc, class: &str, what: String| {
         acc.violation(&format!("C11/seq/{class}"), &what, describe);
     };
     if start.prefill > 0 {
         let ids = model.ids(start.prefill);
-        v.extend(ids.iter().map(|&i| mk(i)).collect::<Vec<_>>().into_iter(), fill_ok);
+        v.extend(ids.iter().map(|&i| mk(i)).collect::<Vec<_>>().into_iter(), fill_ok::<K>);
         model.slots.extend(ids.iter().map(|&i| Some(i)));
     }
     for (step, &op) in ops.iter().enumerate() {
@@ -136,7 +180,7 @@ fn run_history(start: &Start, ops: &[Op], acc: &mut Acc, describe: &dyn Fn() -> 
         match op {
             Op::Push => {
                 let id = model.ids(1)[0];
-                let idx = v.push(mk(id), fill_ok);
+                let idx = v.push(mk(id), fill_ok::<K>);
                 if idx != before {
                     fail(acc, "index", format!("step {step}: push returned index {idx}, expected {before}"));
                 }
@@ -160,7 +204,7 @@ fn run_history(start: &Start, ops: &[Op], acc: &mut Acc, describe: &dyn Fn() -> 
             }
             Op::Extend(n) => {
                 let ids = model.ids(n);
-                v.extend(ids.iter().map(|&i| mk(i)).collect::<Vec<_>>().into_iter(), fill_ok);
+                v.extend(ids.iter().map(|&i| mk(i)).collect::<Vec<_>>().into_iter(), fill_ok::<K>);
                 model.slots.extend(ids.iter().map(|&i| Some(i)));
             }
             Op::ExtendOver200 | Op::ExtendOverFar => {
@@ -177,7 +221,7 @@ fn run_history(start: &Start, ops: &[Op], acc: &mut Acc, describe: &dyn Fn() -> 
                     inner: ids.iter().map(|&i| mk(i)).collect::<Vec<_>>().into_iter(),
                     reported: reported as usize,
                 };
-                let r = catch_unwind(AssertUnwindSafe(|| v.extend(it, fill_ok)));
+                let r = catch_unwind(AssertUnwindSafe(|| v.extend(it, fill_ok::<K>)));
                 if r.is_err() {
                     fail(acc, "over_reporting_panics", format!("step {step}: extend with an over-reporting iterator panicked"));
                 }
@@ -190,7 +234,7 @@ fn run_history(start: &Start, ops: &[Op], acc: &mut Acc, describe: &dyn Fn() -> 
                     inner: ids.iter().map(|&i| mk(i)).collect::<Vec<_>>().into_iter(),
                     reported: 2,
                 };
-                let r = catch_unwind(AssertUnwindSafe(|| v.extend(it, fill_ok)));
+                let r = catch_unwind(AssertUnwindSafe(|| v.extend(it, fill_ok::<K>)));
                 if r.is_ok() {
                     fail(acc, "under_reporting_accepted", format!("step {step}: extend accepted more items than reported"));
                 }
@@ -203,7 +247,7 @@ fn run_history(start: &Start, ops: &[Op], acc: &mut Acc, describe: &dyn Fn() -> 
                     inner: ids.iter().map(|&i| mk(i)).collect::<Vec<_>>().into_iter(),
                     reported: 0,
                 };
-                let r = catch_unwind(AssertUnwindSafe(|| v.extend(it, fill_ok)));
+                let r = catch_unwind(AssertUnwindSafe(|| v.extend(it, fill_ok::<K>)));
                 if r.is_ok() {
                     fail(acc, "zero_liar_accepted", format!("step {step}: extend accepted items from an iterator reporting length 0"));
                 }
@@ -213,10 +257,10 @@ fn run_history(start: &Start, ops: &[Op], acc: &mut Acc, describe: &dyn Fn() -> 
                 let bad = ids[j as usize];
                 let r = catch_unwind(AssertUnwindSafe(|| {
                     v.extend(ids.iter().map(|&i| mk(i)).collect::<Vec<_>>().into_iter(), |t, cols| {
-                        if t.id == bad {
+                        if K::id(t) == bad {
                             panic!("fill callback panics");
                         }
-                        fill_ok(t, cols)
+                        fill_ok::<K>(t, cols)
                     })
                 }));
                 if r.is_ok() {
@@ -240,7 +284,7 @@ fn run_history(start: &Start, ops: &[Op], acc: &mut Acc, describe: &dyn Fn() -> 
                 (Some(item), Some(id)) => {
                     let cols_ok = item.matcher_columns.len() == start.cols as usize
                         && item.matcher_columns.iter().enumerate().all(|(k, c)| c.len() == col_len(id, k));
-                    if item.data.id != id || !cols_ok {
+                    if K::id(item.data) != id || !cols_ok {
                         fail(acc, "content", format!("step {step}: get({i}) returns a wrong or torn item"));
                     }
                 }
@@ -259,7 +303,7 @@ fn run_history(start: &Start, ops: &[Op], acc: &mut Acc, describe: &dyn Fn() -> 
             fail(acc, "snapshot", format!("step {step}: snapshot yields {snap_n} entries, count is {count}"));
         }
         let dropped = log.borrow();
-        for &id in &model.handed {
+        for &id in model.handed.iter().filter(|_| K::DROPS) {
             let published = model.slots.iter().any(|s| *s == Some(id));
             let n = dropped.iter().filter(|&&d| d == id).count();
             if published && n != 0 {
@@ -274,7 +318,7 @@ fn run_history(start: &Start, ops: &[Op], acc: &mut Acc, describe: &dyn Fn() -> 
     drop(v);
     let tally = talloc::end();
     let dropped = log.borrow();
-    for &id in &model.handed {
+    for &id in model.handed.iter().filter(|_| K::DROPS) {
         let n = dropped.iter().filter(|&&d| d == id).count();
         if n == 0 {
             let class = if published.contains(&id) { "leak_published_item" } else { "leak_unpublished_item" };
@@ -485,6 +529,67 @@ fn snapshot_layout_case(cap: u32, cols: u32, n: u32, mode: u32, acc: &mut Acc) {
     }
 }
 
+/// Reservations beyond the 32-bit index space (reachable in two calls with iterators that
+/// over-report their length): the count never decreases, never falls below the completed pushes,
+/// and the items that were published stay readable. (No iteration here: the count is ~2^31.)
+fn reservation_overflow_cases(rep: &mut Report) {
+    struct Empty(usize);
+    impl Iterator for Empty {
+        type Item = u32;
+        fn next(&mut self) -> Option<u32> {
+            None
+        }
+    }
+    impl ExactSizeIterator for Empty {
+        fn len(&self) -> usize {
+            self.0
+        }
+    }
+    let mut acc = Acc::new();
+    for real in [0u32, 1, 20, 33] {
+        for claims in [vec![1usize << 31, 1 << 31], vec![(1 << 31) - 1, 1 << 31, 1 << 31], vec![u32::MAX as usize - 40, 10, 1 << 20], vec![u32::MAX as usize, 5]] {
+            acc.evaluations += 1;
+            acc.states += 1;
+            acc.nontrivial += 1;
+            let v: VerifVec<u32> = VerifVec::with_capacity(64, 1);
+            for i in 0..real {
+                v.push(i, |_, c| c[0] = "ab".into());
+            }
+            let describe = |what: String| json!({"real_pushes": real, "claimed_lengths": claims, "observation": what});
+            let mut last = v.count();
+            let mut check = |acc: &mut Acc, when: String| {
+                let c = v.count();
+                if c < last {
+                    acc.violation("C08/seq/count", "count() decreased", || describe(format!("{when}: count went from {last} to {c}")));
+                }
+                if c < real {
+                    acc.violation("C08/seq/count", "count() is below the number of completed pushes", || describe(format!("{when}: count {c}")));
+                }
+                last = last.max(c);
+                for i in 0..real {
+                    if v.get(i).map(|it| *it.data) != Some(i) {
+                        acc.violation("C08/seq/content", "a published item is no longer readable", || describe(format!("{when}: get({i})")));
+                    }
+                }
+            };
+            for (k, &claim) in claims.iter().enumerate() {
+                acc.transitions += 1;
+                let _ = catch_unwind(AssertUnwindSafe(|| v.extend(Empty(claim), |_, _| {})));
+                check(&mut acc, format!("after over-reporting batch {k}"));
+            }
+            acc.transitions += 1;
+            let r = catch_unwind(AssertUnwindSafe(|| v.push(777, |_, c| c[0] = "ab".into())));
+            check(&mut acc, "after a further push".into());
+            if let Ok(idx) = r {
+                if v.get(idx).map(|it| *it.data) != Some(777) {
+                    acc.violation("C08/seq/content", "a push that returned an index is not readable at that index", || describe(format!("push returned {idx}")));
+                }
+            }
+        }
+    }
+    rep.acc.merge(acc);
+}
+
 fn snapshot_layouts(rep: &mut Report) {
     let thorough = rep.is_thorough();
     let pool = rayon::ThreadPoolBuilder::new().num_threads(4).build().unwrap();
@@ -521,6 +626,7 @@ pub fn c08_seq_child(tier: &str) -> ! {
     let mut rep = Report::new("C08", tier);
     run_seq(&mut rep);
     snapshot_layouts(&mut rep);
+    reservation_overflow_cases(&mut rep);
     let mut viols = Vec::new();
     for (sig, class) in rep.acc.violations.iter() {
         let cl = sig.rsplit('/').next().unwrap_or("");
